@@ -57,8 +57,8 @@ Theorem C05_parent_done_nil_nil_refuted :
 Proof. exists 2, [KIncomplete; KComplete], [0; 1], 0. repeat split; auto. Qed.
 Print Assumptions C05_parent_done_nil_nil_refuted.
 
-(* "the same request is issued N times": every one of the n attempts (n-1 successive
-   CloneRequest copies and the original as the copies left it) is handed the request with
+(* "the same request is issued N times": every one of the n attempts (n successive
+   CloneRequest copies, each call re-buffering the caller's request) is handed the request with
    the same method, URL, path, query, params, headers and the FULL body *)
 Theorem C05_bodies : forall n r,
   spawn n r = repeat r n /\
